@@ -106,7 +106,7 @@ theorem torn_load_partial (S : Nat) (now : Int) (old : Bytes) (t : Int) (d c : B
     by_cases hro : readFromFile now old = some (h.timeout, dataArea c h.size)
     · right; left; exact hro
     · right; right; right
-      exact ⟨h, by rw [← hcg]; exact hp, hp, rfl, rfl, dataArea_length hlen, hcrc, hro⟩
+      exact ⟨h, by rw [← hcg]; exact hp, hp, rfl, hexp, rfl, dataArea_length hlen, hcrc, hro⟩
   · -- a hole of zeros: deadline 0 is past
     have hg : 16 ≤ (List.replicate 16 (0 : UInt8)).length := by simp
     have hcg := (header_congr c (List.replicate 16 0) h16 hg (by rw [hzero]; rfl)).2
@@ -312,6 +312,158 @@ theorem save_then_load (now : Int) (sid : Bytes) (t : Int) (d : Bytes) (dir : Di
   rw [this]
   simp only [no_crash_load_new now _ t d ht hd hnow]
 
+/-! ## histories -/
+
+/-- invariant of histories: every file is well-formed, and whatever it could load as (at any
+positive clock) is a pair some save of that sid was called with -/
+def HistInv (dir : Dir) (V : Bytes → List (Int × Bytes)) : Prop :=
+  ∀ sid f, dir sid = some f → WellFormedOld f ∧ ∀ now r, 0 < now → readFromFile now f = some r → r ∈ V sid
+
+theorem savedValues_cons (sid : Bytes) (op : Op) (r : List Op) :
+    savedValues sid (op :: r) = savedValues sid [op] ++ savedValues sid r := by
+  cases op <;> simp [savedValues] <;> split <;> simp
+
+theorem readFromFile_nil (now : Int) : readFromFile now [] = none := by
+  simp [readFromFile, stamp?]
+
+theorem HistInv_sub {dir dir' : Dir} {V V' : Bytes → List (Int × Bytes)} (h : HistInv dir V)
+    (hd : ∀ sid f, dir' sid = some f → dir sid = some f) (hv : ∀ sid r, r ∈ V sid → r ∈ V' sid) : HistInv dir' V' := by
+  intro sid f hf
+  obtain ⟨h1, h2⟩ := h sid f (hd sid f hf)
+  exact ⟨h1, fun now r hn hr => hv sid r (h2 now r hn hr)⟩
+
+theorem step_inv (w : World) (V : Bytes → List (Int × Bytes)) (op : Op)
+    (hinv : HistInv w.dir V) (hok : OpOk w op) :
+    HistInv (step w op).dir (fun sid => V sid ++ savedValues sid [op]) := by
+  have hmono : ∀ sid r, r ∈ V sid → r ∈ V sid ++ savedValues sid [op] := fun _ _ h => List.mem_append_left _ h
+  cases op with
+  | setClock n => exact HistInv_sub hinv (fun _ _ h => h) hmono
+  | load s =>
+    refine HistInv_sub hinv ?_ hmono
+    intro sid f hf
+    simp only [step] at hf
+    by_cases hs : sid = s
+    · subst hs
+      cases hl : (load w.now sid w.dir).1 with
+      | none => rw [load_removes_bad_files w.now sid w.dir hl] at hf; cases hf
+      | some r => rw [(load_keeps_good_files w.now sid w.dir).1 (by simp [hl])] at hf; exact hf
+    · rw [(load_keeps_good_files w.now s w.dir).2 sid hs] at hf; exact hf
+  | remove s =>
+    refine HistInv_sub hinv ?_ hmono
+    intro sid f hf
+    simp only [step, remove, Dir.erase] at hf
+    split at hf
+    · cases hf
+    · exact hf
+  | gc =>
+    refine HistInv_sub hinv ?_ hmono
+    intro sid f hf
+    exact (gc_touches_only_sid_names w.now w.dir).2 sid f hf
+  | save s t d =>
+    obtain ⟨ht, hd⟩ := hok
+    intro sid f hf
+    simp only [step, save, Dir.put] at hf
+    by_cases hs : sid = s
+    · subst hs
+      simp only [if_true] at hf
+      injection hf with hf
+      subst hf
+      refine ⟨saveComplete_wellformed _ t d, ?_⟩
+      intro now r _ hr
+      rw [saveComplete_eq, readFromFile_record now t d _ ht (by omega)] at hr
+      split at hr
+      · cases hr
+      · injection hr with hr
+        subst hr
+        simp [savedValues]
+    · simp only [hs, if_false] at hf
+      obtain ⟨h1, h2⟩ := hinv sid f hf
+      exact ⟨h1, fun now r hn hr => hmono sid r (h2 now r hn hr)⟩
+  | crashSave S s t d k j T =>
+    obtain ⟨hS, ht, hd, hk, hfree⟩ := hok
+    intro sid f hf
+    simp only [step, crashSave, Dir.put] at hf
+    by_cases hs : sid = s
+    · subst hs
+      simp only [if_true] at hf
+      injection hf with hf
+      have hwf : WellFormedOld ((w.dir sid).getD []) := by
+        cases hd' : w.dir sid with
+        | none => left; rfl
+        | some g => exact (hinv sid g hd').1
+      have hc : Crash S ((w.dir sid).getD []) t d f := ⟨k, j, T, hk, hf.symm⟩
+      refine ⟨crash_wellformed S _ t d f hS hwf hc, ?_⟩
+      intro now r hn hr
+      rcases torn_load S now _ t d f hS hn hwf ht hd (hfree now) hc with h | h | h
+      · rw [h] at hr; cases hr
+      · rw [h] at hr
+        injection hr with hr
+        subst hr
+        simp [savedValues]
+      · rw [h] at hr
+        cases hd' : w.dir sid with
+        | none => rw [hd'] at hr; simp [readFromFile_nil] at hr
+        | some g =>
+          rw [hd'] at hr
+          exact hmono sid r ((hinv sid g hd').2 now r hn hr)
+    · simp only [hs, if_false] at hf
+      obtain ⟨h1, h2⟩ := hinv sid f hf
+      exact ⟨h1, fun now r hn hr => hmono sid r (h2 now r hn hr)⟩
+
+theorem run_inv (ops : List Op) (w : World) (V : Bytes → List (Int × Bytes))
+    (hinv : HistInv w.dir V) (hadm : Admissible w ops) :
+    HistInv (run w ops).dir (fun sid => V sid ++ savedValues sid ops) := by
+  induction ops generalizing w V with
+  | nil => simpa [run, savedValues] using hinv
+  | cons op r ih =>
+    obtain ⟨hok, hrest⟩ := hadm
+    have := ih (step w op) _ (step_inv w V op hinv hok) hrest
+    have e : (fun sid => (V sid ++ savedValues sid [op]) ++ savedValues sid r) =
+        (fun sid => V sid ++ savedValues sid (op :: r)) := by
+      funext sid; rw [savedValues_cons sid op r, List.append_assoc]
+    rw [e] at this
+    exact this
+
+theorem run_now_pos (ops : List Op) (w : World) (h0 : 0 < w.now) (hadm : Admissible w ops) :
+    0 < (run w ops).now := by
+  induction ops generalizing w with
+  | nil => exact h0
+  | cons op r ih =>
+    obtain ⟨hok, hrest⟩ := hadm
+    apply ih (step w op) _ hrest
+    cases op <;> simp [step] <;> first | exact h0 | exact hok
+
+/-- **Histories (partial: `Admissible` contains `CollisionFree` for every crashed save).**
+Start from an empty directory at a positive clock and run any sequence of complete saves,
+crashed saves (any crash point, any sector subset), loads, removes, garbage collections and
+clock moves.  Whatever a load then returns for `sid` is a pair `(deadline, data)` that some save
+of `sid` in the history was called with — deadline and data of the *same* save, never a mixture,
+never a wrong length — and its deadline is not past. -/
+theorem history_load_partial (now0 : Int) (ops : List Op) (h0 : 0 < now0)
+    (hadm : Admissible ⟨now0, Dir.empty⟩ ops) (sid : Bytes) (r : Int × Bytes)
+    (hl : (load (run ⟨now0, Dir.empty⟩ ops).now sid (run ⟨now0, Dir.empty⟩ ops).dir).1 = some r) :
+    r ∈ savedValues sid ops ∧ (run ⟨now0, Dir.empty⟩ ops).now ≤ r.1 := by
+  have hinv0 : HistInv (World.mk now0 Dir.empty).dir (fun _ => []) := by
+    intro sid f hf; simp [Dir.empty] at hf
+  have hinv := run_inv ops ⟨now0, Dir.empty⟩ (fun _ => []) hinv0 hadm
+  have hpos := run_now_pos ops ⟨now0, Dir.empty⟩ h0 hadm
+  generalize run ⟨now0, Dir.empty⟩ ops = w at *
+  unfold load at hl
+  cases hd : w.dir sid with
+  | none => simp [hd] at hl
+  | some f =>
+    simp only [hd] at hl
+    cases hr : readFromFile w.now f with
+    | none => simp [hr] at hl
+    | some r' =>
+      simp only [hr] at hl
+      injection hl with hl
+      subst hl
+      have := (hinv sid f hd).2 w.now r' hpos hr
+      simp only [List.nil_append] at this
+      obtain ⟨hd', _, hr1, hle, _⟩ := load_sound w.now f r' hr
+      exact ⟨this, hle⟩
+
 /-! ## non-vacuity -/
 
 /-- the hypotheses of `torn_load_partial` are met by a real crash state that loads -/
@@ -319,8 +471,65 @@ example : ∃ c r, Crash 512 Witness.oldFile1 3000 [65, 66, 67] c ∧ WellFormed
     readFromFile 1000 c = some r :=
   ⟨_, (3000, [65, 66, 67]), saveComplete_is_crash 512 _ 3000 [65, 66, 67], Or.inr (by decide), by decide +kernel⟩
 
+/-- CRC-32 separates single bytes from `A` … -/
+theorem crc32_single_65 : ∀ x : UInt8, crc32 [x] = crc32 [65] → x = 65 := by
+  apply forall_uint8
+  decide +kernel
+
+/-- … so `CollisionFree` (hypothesis of `torn_load`) holds, for every sector size, clock and
+deadline, for a one-byte value saved where no file existed: it is not vacuous. -/
+theorem collisionFree_single_fresh (S : Nat) (now t : Int) : CollisionFree S now [] t [65] := by
+  intro c r _
+  constructor
+  · rintro ⟨_, _, hlen, hcrc, hne⟩
+    match h : r.2, hlen with
+    | [x], _ =>
+      rw [h] at hcrc hne
+      exact hne (by rw [crc32_single_65 x hcrc])
+  · rintro ⟨h, hp, _⟩
+    simp [parseHeader] at hp
+
+theorem crc32_single_66 : ∀ x : UInt8, crc32 [x] = crc32 [66] → x = 66 := by
+  apply forall_uint8
+  decide +kernel
+
+/-- … and for a one-byte value saved over an earlier one-byte value (any sector size, clock). -/
+theorem collisionFree_single_over (S : Nat) (now : Int) : CollisionFree S now (saveComplete [] 2000 [66]) 3000 [65] := by
+  intro c r _
+  constructor
+  · rintro ⟨_, _, hlen, hcrc, hne⟩
+    match h : r.2, hlen with
+    | [x], _ =>
+      rw [h] at hcrc hne
+      exact hne (by rw [crc32_single_65 x hcrc])
+  · rintro ⟨h, hp, _, ht, hexp, _, hlen, hcrc, hno⟩
+    have hh : parseHeader (saveComplete [] 2000 [66]) = some ⟨2000, crc32 [66], 1⟩ := by decide +kernel
+    rw [hh] at hp
+    injection hp with hp
+    subst hp
+    apply hno
+    have hr2 : r.2 = [66] := by
+      match h : r.2, hlen with
+      | [x], _ => rw [h] at hcrc; rw [crc32_single_66 x hcrc]
+    have : r = (2000, [66]) := by
+      cases r; simp only at ht hr2; rw [ht, hr2]
+    rw [this]
+    have hok := Props.no_crash_load_new now [] 2000 [66] (by decide) (by decide) (by simpa [Gen.expired] using hexp)
+    exact hok
+
 example : readFromFile 1000 (saveComplete [1, 2, 3] 2000 [104, 105]) = some (2000, [104, 105]) := by decide +kernel
 example : readFromFile 2001 (saveComplete [] 2000 [104, 105]) = none := by decide +kernel
 example : gc 1000 (Dir.put Dir.empty (List.replicate 32 48) [0, 0, 0]) (List.replicate 32 48) = none := by decide +kernel
+
+/-- `Admissible` (hypothesis of `history_load_partial`) is met by a history with a real crashed save -/
+example : Admissible ⟨1000, Dir.empty⟩
+    [.save [48, 49, 50, 51] 2000 [66], .crashSave 512 [48, 49, 50, 51] 3000 [65] 1 0 (fun _ => true), .gc,
+     .setClock 1500, .load [48, 49, 50, 51]] := by
+  refine ⟨⟨by decide, by decide⟩, ⟨by decide, by decide, by decide, by decide, ?_⟩, trivial, (by show (0:Int) < 1500; decide), trivial, trivial⟩
+  intro now
+  have : ((step ⟨1000, Dir.empty⟩ (.save [48, 49, 50, 51] 2000 [66])).dir [48, 49, 50, 51]).getD [] = saveComplete [] 2000 [66] := by
+    simp [step, save, Dir.put, Dir.empty]
+  rw [this]
+  exact collisionFree_single_over 512 now
 
 end Cppcms.C18.Props
